@@ -32,3 +32,15 @@ KANI = [
        "normalize_angle(a) in [0,2pi] and congruent to a modulo 2pi within 1e-4 turns",
        "all f32 |a| <= 1000", [F + "normalize_angle"]),
 ]
+
+KANI.append(KH("c19_bbox::c19_vertices_far_small", "quick", 900,
+               "polygon vertices of tiny boxes far from the origin are exact in f64 (centre +- half size not representable in f32)",
+               "xc = 8192 + k/4, yc = -4096 + k/4, height m/2048 (m 1..8), aspect 1..4", [F + "Polygon::from(&Universal2DBox)"]))
+# engine M: vertex formula for any angle (sin / cos uninterpreted but functional), never a stale cache; gen_vertices regenerates
+import C08 as _c08
+MIR = [q for q in _c08.MIR if q.name in ('c08_polygon_from', 'c08_gen_vertices')]
+EXPLANATION += (" Engine M: Polygon::from(&Universal2DBox) yields the four vertices centre +- the half-size vector rotated by (cos, sin) of the box "
+                "angle - bit-equal to an independently written f64 term with sin / cos as uninterpreted functions, so sign / order / "
+                "precision changes are caught without reasoning about sin and cos - from the CURRENT fields, never from a cached polygon; "
+                "gen_vertices replaces a stale cache.")
+ASSUMPTIONS += ["M: free centre, angle None or from {0,.5,1,2.5,-.75,7}, sizes from exact grids; sin / cos uninterpreted"]
